@@ -10,6 +10,8 @@ Helper lemmas: `NoulithModel/Lemmas/C15Basic.lean`.
 import NoulithModel.Lemmas.C15Basic
 import NoulithModel.Lemmas.C15Float
 import NoulithModel.Impl.Parse
+import NoulithModel.Lemmas.C15ParseFuel
+import NoulithModel.Lemmas.C15Grammar
 
 namespace Noulith.C15
 open Noulith Noulith.Lex Noulith.LitSpec
@@ -653,13 +655,24 @@ theorem bytes_hex_escape_refuted : ¬ bytes_literal_exact_statement := by
 
 `Impl/Parse.lean` is a recursive-descent recogniser with the control flow of `Parser` in core.rs; it
 is total by construction (structural recursion on a fuel argument).  What is proved here is only that
-its three outcomes are exhaustive and what happens on the empty program; that the fuel `fuelFor` is
-always sufficient is stated and left unproved (the correspondence run reports any out-of-fuel
-answer as a disagreement). -/
+the fuel `fuelFor` is always sufficient (`parse_terminates`), so the model decides every input. -/
 
 /-- the full-strength termination statement for the parser model: with the linear fuel `fuelFor`
-the recursive descent never runs out of fuel, for any source text.  NOT proved. -/
+the recursive descent never runs out of fuel, for any source text -/
 def parse_terminates_statement : Prop := ∀ code : List Char, Parse.parse code ≠ .outOfFuel
+
+/-- **`parse_terminates`**: the parser model never answers `outOfFuel` — for every source text `parse`
+returns `ok` or `err`.  Proof (Lemmas/C15ParseFuel.lean): by induction on the fuel, every function of
+the mutual block is safe when fuel ≥ 10 · weight(remaining tokens) + its grammar level, because every
+recursive call either is made on a strictly lighter token list or descends a grammar level; format-string
+tokens weigh twice their body length (the body is lexed and parsed recursively, `pneed_fmtScan`), and
+the token stream weighs at most twice the source length (`W_lex_le`). -/
+theorem parse_terminates : parse_terminates_statement := parse_never_out_of_fuel
+
+/-- the parser model is a total decision: every source text is accepted or rejected -/
+theorem parse_decides (code : List Char) : Parse.parse code = .ok ∨ Parse.parse code = .err := by
+  have h := parse_terminates code
+  cases hp : Parse.parse code <;> simp_all
 
 /-- the empty program (no tokens but comments and blanks) parses: `Ok(None)` -/
 theorem parse_empty_program (code : List Char) (h : (stripComments (lex code)).1 = []) :
@@ -730,5 +743,30 @@ theorem parse_string_literal (e : Char) (he : e = '\'' ∨ e = '"') (its : List 
   rw [hf]
   exact parseTokens_single_literal _ rfl _
 
+
+/-! ## 8. The accepted language: soundness on the expression fragment
+
+Grammar (`D` in Lemmas/C15Grammar.lean), over literals, identifiers and `( ) [ ] ,`:
+
+    Atom    ::= literal | ident | '(' Args ')' | '[' ']' | '[' Args ']'
+    Operand ::= Atom | Operand '(' ')' | Operand '(' Args ')' | Operand '[' Chain ']'
+    Chain   ::= Operand | Operand Atom | Operand Atom Operand (Atom Operand)*
+    Args    ::= Chain (',' Chain)* [',']
+-/
+
+/-- **`parse_sound_fragment`**: if the source lexes to a non-empty token list over the fragment's
+alphabet and the parser model accepts it, the token list is an `Args` phrase of the grammar.
+Together with `parse_terminates` this characterises acceptance on the fragment from one side:
+accepted ⟹ derivable. -/
+theorem parse_sound_fragment (code : List Char) (hf : AllFrag (stripComments (lex code)).1)
+    (hne : (stripComments (lex code)).1 ≠ []) (h : Parse.parse code = .ok) :
+    Lang .args (stripComments (lex code)).1 :=
+  parseTokens_sound _ _ hf hne h
+
+/-- non-vacuity: `f(x, [1])[0] + y` is accepted, hence derivable -/
+example : Lang .args [.ident ['f'], .leftParen, .ident ['x'], .comma, .leftBracket, .intLit 1, .rightBracket,
+    .rightParen, .leftBracket, .intLit 0, .rightBracket, .ident ['+'], .ident ['y']] :=
+  parseTokens_sound 200 _ (by simp [frag_ident, frag_leftParen, frag_comma, frag_leftBracket, frag_intLit,
+    frag_rightBracket, frag_rightParen]) (by simp) (by rfl)
 
 end Noulith.C15
